@@ -4,6 +4,7 @@ package main
 
 import (
 	"bufio"
+	"os"
 	"fmt"
 	"io"
 	"os/exec"
@@ -26,6 +27,9 @@ type Solver struct {
 	timeout int // ms
 	trace   io.Writer
 	dead    bool
+	base    []string // definitions made at the base level (LUTs, UFs)
+	retryMs int
+	scope   []string // assertions of the innermost query scope (for fresh retries)
 }
 
 type Stats struct {
@@ -60,6 +64,7 @@ func (s *Solver) start() error {
 	s.out = bufio.NewReaderSize(out, 1<<16)
 	s.lutDone = map[string]string{}
 	s.ufDone = map[string]bool{}
+	s.base = nil
 	s.dead = false
 	s.raw("(set-option :print-success false)")
 	if strings.Contains(s.bin, "z3") {
@@ -112,7 +117,9 @@ func (s *Solver) EnsureLut(l *Lut) string {
 	}
 	saved := append([]string(nil), s.log...)
 	s.raw("(pop 1)")
-	s.raw(strings.Replace(l.defStr, "@NAME@", nm, 1))
+	def := strings.Replace(l.defStr, "@NAME@", nm, 1)
+	s.base = append(s.base, def)
+	s.raw(def)
 	s.raw("(push 1)")
 	for _, x := range saved {
 		s.raw(x)
@@ -128,6 +135,7 @@ func (s *Solver) EnsureUF(name, decl string) {
 	}
 	saved := append([]string(nil), s.log...)
 	s.raw("(pop 1)")
+	s.base = append(s.base, decl)
 	s.raw(decl)
 	s.raw("(push 1)")
 	for _, x := range saved {
@@ -181,6 +189,12 @@ func (s *Solver) CheckSat(extra string) string {
 			}
 			res = "unknown"
 			break
+		}
+	}
+	if res == "unknown" && !s.dead && s.retryMs > 0 {
+		if r2 := s.retryFresh(extra); r2 == "unsat" {
+			// a fresh solver refuted it; sat answers are not adopted (no model in this process)
+			res = "unsat"
 		}
 	}
 	if extra != "" && !s.dead {
@@ -402,4 +416,40 @@ func (e *Emitter) Name(t *Term) string {
 		e.names[x] = nm
 	}
 	return e.names[t]
+}
+
+// retryFresh re-runs the current scope plus extra in one-shot solver processes.
+func (s *Solver) retryFresh(extra string) string {
+	f, err := os.CreateTemp("", "gosym-retry-*.smt2")
+	if err != nil {
+		return "unknown"
+	}
+	defer os.Remove(f.Name())
+	w := bufio.NewWriter(f)
+	for _, l := range s.base {
+		fmt.Fprintln(w, l)
+	}
+	for _, l := range s.log {
+		fmt.Fprintln(w, l)
+	}
+	for _, l := range s.scope {
+		fmt.Fprintln(w, l)
+	}
+	if extra != "" {
+		fmt.Fprintln(w, "(assert "+extra+")")
+	}
+	fmt.Fprintln(w, "(check-sat)")
+	w.Flush()
+	f.Close()
+	for _, cmd := range [][]string{{"z3-new", fmt.Sprintf("-T:%d", s.retryMs/1000), f.Name()}, {"z3", fmt.Sprintf("-T:%d", s.retryMs/1000), f.Name()}} {
+		out, _ := exec.Command(cmd[0], cmd[1:]...).CombinedOutput()
+		txt := strings.TrimSpace(string(out))
+		if strings.Contains(txt, "(error") {
+			continue
+		}
+		if txt == "unsat" || txt == "sat" {
+			return txt
+		}
+	}
+	return "unknown"
 }
